@@ -252,7 +252,7 @@ func (c *Check) Finish() {
 		cov["distinct_nontrivial"] = len(c.distinct)
 	}
 	// fold in the result of the interleaving exploration (engine E2) that ran just before this harness
-	if raw, err := os.ReadFile(filepath.Join(Dir(), ".work", "conc-"+c.Property+".json")); err == nil {
+	if raw, err := os.ReadFile(ConcSide(c.Property)); err == nil {
 		var conc map[string]any
 		if json.Unmarshal(raw, &conc) == nil {
 			cov["concurrency"] = conc
@@ -307,3 +307,13 @@ type Deadline struct{ t time.Time }
 
 func NewDeadline(d time.Duration) Deadline { return Deadline{time.Now().Add(d)} }
 func (d Deadline) Expired() bool          { return time.Now().After(d.t) }
+
+// ConcSide is where engine E2 (concmc) leaves its result for the main harness of the same ./check invocation;
+// the directory is private to the invocation (VERIF_RUN_DIR), so concurrent invocations cannot mix results.
+func ConcSide(prop string) string {
+	d := os.Getenv("VERIF_RUN_DIR")
+	if d == "" {
+		d = filepath.Join(Dir(), ".work")
+	}
+	return filepath.Join(d, "conc-"+prop+".json")
+}
